@@ -860,7 +860,7 @@ static int ec_substitute(char *loc, char *cmd, char *arg, char *txt)
 			replace(r, xrep, ln, offs);
 			ln += offs[1];
 			if (offs[1] <= offs[0]) {	/* zero-length match */
-				int l = uc_len(ln);
+				int l = MIN(uc_len(ln), (int) strlen(ln));
 				sbuf_mem(r, ln, l);
 				ln += l;
 			}
